@@ -11,7 +11,7 @@ use crate::util::{Json, Rng};
 
 pub fn run(c: &mut Ctx) {
     c.run_scenarios(|c, idx, rng| {
-        let name = COLLS[(idx % COLLS.len() as u64) as usize];
+        let name = COLLS[(crate::util::mix(idx) % COLLS.len() as u64) as usize];
         for_coll!(name, scenario(c, idx, rng, name));
     });
 }
@@ -44,7 +44,7 @@ fn boundary_values(cap: usize, rng: &mut Rng) -> Vec<usize> {
 }
 
 pub fn scenario<C: Coll>(c: &mut Ctx, idx: u64, rng: &mut Rng, name: &str) {
-    let recipe = RECIPES[((idx / COLLS.len() as u64) % RECIPES.len() as u64) as usize];
+    let recipe = RECIPES[((crate::util::mix(idx) / COLLS.len() as u64) % RECIPES.len() as u64) as usize];
     let spec = Spec::random(rng, recipe);
     let bh = PlanBH::new(spec.plan, spec.salt);
     let mut d = Json::obj();
